@@ -51,18 +51,11 @@ def natural_matrix(ctx):
     return runs
 
 
-def run(ctx):
-    rnd = random.Random(ctx.seed)
-    ctx.cov["bounds"] = {}
-    # ---- 1. the cache (design), its sharpness (modelled mutants), export
-    jobs = oc.ops_level(ctx, "C10", oc.INV_OPS, rnd, nsample=360 if ctx.quick else 6000)
-    # ---- 2./3. real code: operator replays and natural solver runs (one process pool)
-    nops = len(jobs)
-    nat = natural_matrix(ctx)
-    jobs += [("call", dict(module="harness.opscache", func="natural_run", args=a)) for a in nat]
-    results = rf.replay_all(ctx, jobs)
-    ops_traces = [t for r in results[:nops] for t in r]
-    nat, nat_traces = oc.split_aborted(ctx, nat, results[nops:])
+def operator_level(ctx, rnd):
+    """1. design of the cache + modelled mutants, 2. export, replay on the real MeshOperators, trace validation."""
+    jobs = oc.ops_level(ctx, "C10", oc.INV_OPS, rnd, nsample=360 if ctx.quick else 15000,
+                        mutants=[m for m in oc.OPS_MUTANTS if m[0] != "MFixPsi"] if ctx.quick else None)
+    ops_traces = [t for r in rf.replay_all(ctx, jobs) for t in r]
     good = oc.judge_ops_traces(ctx, "C10", ops_traces, oc.INV_OPS)
     exact_ok = [n for n in good if ops_traces[n]["exact"] and len(ops_traces[n]["ev"]) >= 3]
     for n in exact_ok[:2]:
@@ -83,7 +76,12 @@ def run(ctx):
     elif not ctx.violations:
         raise core.MachineryFailure("C10: no operator replay was accepted")
 
-    # ---- solver level: which trigger does the code implement?  (TLC decides)
+
+def solver_level(ctx):
+    """3. natural runs of the real solver; TLC identifies the refresh trigger, model-checks it, judges every run."""
+    nat = natural_matrix(ctx)
+    results = rf.replay_all(ctx, [("call", dict(module="harness.opscache", func="natural_run", args=a)) for a in nat])
+    nat, nat_traces = oc.split_aborted(ctx, nat, results)
     if not any(e["ev"] == "field" and e["a"] == 1 for t in nat_traces for e in t["ev"]):
         raise core.MachineryFailure("C10: no natural run has a step whose change is below the closeness tolerance")
     full, res = oc.identify_mechanism(ctx, nat_traces, "MTrigger", ["exact", "prev_close"], oc.REPAIRED, "C10 natural runs")
@@ -92,22 +90,26 @@ def run(ctx):
     trig = full[0] if full else "exact"
     mech = dict(oc.REPAIRED, MTrigger=trig)
     ctx.cov["mechanism_identified_by_trace_validation"] = {"MTrigger": trig if full else None}
-    sb = dict(oc.STEP_DEFAULT, Vs=["zero", "none"]) if ctx.quick else dict(oc.STEP_DEFAULT, Vs=["zero", "none"], MaxSteps=4, MaxIter=2, AMax=4)
+    sb = dict(oc.STEP_DEFAULT, Vs=["zero", "none"]) if ctx.quick else dict(oc.STEP_DEFAULT, Vs=["zero", "none"], MaxSteps=5, MaxIter=2, AMax=4, IMax=4)
     ctx.cov["bounds"]["OpsCache/SpecStep"] = sb
     small = dict(oc.STEP_DEFAULT, Vs=["zero"], Modes=["terminals"], MaxSteps=2)
+    out = {}
+
+    def judge():
+        out["v"] = oc.validate(ctx, nat_traces, mech, oc.INV_C10_STEP, "C10 natural runs")
     thunks = [lambda: oc.model_check(ctx, sb, mech, oc.INV_C10_STEP, "SpecStep", "ViewStep",
                                      f"OpsCache/SpecStep[C10, refresh trigger of the code under test: {trig}]",
                                      required=["Ctor", "FieldStep", "TrigRefresh", "TrigSkip", "Links", "NoLinks", "Euler",
                                                "InducedStep", "Finish"]),
               lambda: ctx.model_check("OpsCache", oc.cfg_text(small, oc.PINNED, ["OperatorsMatchLatestA"], "SpecStep", view="ViewStep"),
                                       name="OpsCache/SpecStep[compare-with-previous-step trigger must violate OperatorsMatchLatestA]",
-                                      expect_violation="OperatorsMatchLatestA", count=False)]
+                                      expect_violation="OperatorsMatchLatestA", count=False),
+              judge]       # every recorded run, every state: the clause itself
     if trig != "exact":
         thunks.append(lambda: ctx.model_check("OpsCache", oc.cfg_text(small, oc.REPAIRED, oc.INV_C10_STEP, "SpecStep", view="ViewStep"),
                                               name="OpsCache/SpecStep[exact-change trigger (candidate repair)]", count=False))
     oc.in_parallel(thunks)
-    # every recorded run, every state: the clause itself
-    acc, bad, _ = oc.validate(ctx, nat_traces, mech, oc.INV_C10_STEP, "C10 natural runs")
+    acc, bad, _ = out["v"]
     for n, (a, tr) in enumerate(zip(nat, nat_traces)):
         ctx.note_case(("C10", "natural", a["label"]), any(e["ev"] in ("field", "links") for e in tr["ev"]))
         info = tr["info"]
@@ -144,6 +146,13 @@ def run(ctx):
                         lambda: oc.canary(ctx, nat_traces[dyn[-1]], mech, oc.INV_C10_STEP, drop_refresh, "C10/natural refresh dropped")])
     elif not ctx.violations:
         raise core.MachineryFailure("C10: no accepted natural run with a refresh")
+
+
+def run(ctx):
+    rnd = random.Random(ctx.seed)
+    ctx.cov["bounds"] = {}
+    # the operator level and the solver level are independent: side by side
+    oc.in_parallel([lambda: operator_level(ctx, rnd), lambda: solver_level(ctx)])
     ctx.cov["rule"] = ("operator level: sequences of link configurations (fourth roots of unity, repeats and zeros included) exported "
                        "by TLC per (instance, pinned set) and replayed on the real MeshOperators; every call is compared with a "
                        "freshly constructed MeshOperators and, on exact instances, with TLC's entries; non-trivial = sequence with "
